@@ -95,27 +95,27 @@ Section C03_system.
               forall x, In x I -> vpart P r p x = true.
   Hypothesis Hp : dom_p (c_period C).
   Hypothesis Hg : dom_g (c_genesis C).
-  Variable F : list Z.
-  Variable P t : Z.
-  Hypothesis F_small : Z.of_nat (length F) < t.
+  Variable thr_of : Z -> Z.       (* threshold of the sharing a public polynomial identifies (one per epoch) *)
+  Variable F_of : Z -> list Z.    (* the share indices of that sharing the adversary holds *)
+  Hypothesis F_small : forall P, Z.of_nat (length (F_of P)) < thr_of P.
   Variable gen : beacon.
   Hypothesis gen_round : b_round gen = 0.
 
   (* In every reachable state of the system (any number of honest nodes, the adversary owning the
      network and the share indices in F, |F| < t), every beacon in every honest chain beyond
-     genesis had, for exactly its round and one previous signature, valid partials of at least t
-     pairwise distinct indices on the wire, at least t - |F| of them from indices the adversary
-     does not hold: with fewer than t contributing members no beacon exists in any honest store. *)
+     genesis had, for exactly its round and one previous signature, valid partials of ONE sharing P
+     (never a mix of shares of two epochs) of at least that sharing's threshold of pairwise distinct
+     indices on the wire, at least thr - |F| of them from indices the adversary does not hold: with fewer than t contributing members no beacon exists in any honest store. *)
   Theorem C03_system_threshold : forall y0 gs,
-    sys_inv C idx_of vpart vrec F P t gen y0 ->
-    gadm_run C idx_of vpart recov vrec own_of F P t y0 gs ->
+    sys_inv C idx_of vpart vrec thr_of F_of gen y0 ->
+    gadm_run C idx_of vpart recov vrec own_of thr_of F_of y0 gs ->
     let y := grun C idx_of vpart recov vrec own_of y0 gs in
     forall s, In s (y_nodes y) -> forall b, In b (s_chain s) -> b <> gen ->
-    exists p I, NoDup (map idx_of I) /\ t <= Z.of_nat (length I) /\
+    exists P p I, NoDup (map idx_of I) /\ thr_of P <= Z.of_nat (length I) /\
       (forall x, In x I -> In (b_round b, p, x) (y_pool y) /\ vpart P (b_round b) p x = true) /\
-      t - Z.of_nat (length F) <= Z.of_nat (length (filter (honest_sig idx_of F) I)).
+      thr_of P - Z.of_nat (length (F_of P)) <= Z.of_nat (length (filter (honest_sig idx_of F_of P) I)).
   Proof.
-    exact (run_threshold C idx_of vpart recov vrec own_of vrec_unchained recov_sound Hp Hg F P t F_small gen gen_round).
+    exact (run_threshold C idx_of vpart recov vrec own_of vrec_unchained recov_sound Hp Hg thr_of F_of F_small gen gen_round).
   Qed.
 End C03_system.
 Print Assumptions C03_system_threshold.
